@@ -167,6 +167,8 @@ class IndexInterp:
                 return self.env[e.id]
             if e.id in self.symbolic:
                 return ("array", e.id)
+            if self.home is not None and self.home[1] is not None and e.id in getattr(self.home[1], "functions", {}):
+                return Closure(self.home[1].functions[e.id])          # a function of the module, held as a value (a table of handlers, a callback)
             if self.home is not None and self.home[1] is not None:
                 v0 = _module_constant(self.home[1], e.id)
                 if v0 is not None:
@@ -230,12 +232,24 @@ class IndexInterp:
                 from fractions import Fraction
                 un = lambda x: x.val if isinstance(x, VecObj) else (Rat(Fraction(repr(x))) if isinstance(x, float) else (Rat(x) if isinstance(x, int) else x))
                 try:
-                    r = {ast.Add: v_add, ast.Sub: v_sub, ast.Mult: v_mul, ast.Div: v_div}[type(e.op)](un(a), un(b))
+                    if isinstance(e.op, ast.Pow):
+                        ub = un(b)
+                        if not (type(ub).__name__ == "Rat" and ub.is_number() and ub.number() == 2):
+                            raise SortError("power %s of a point / expression" % (b,))
+                        r = v_mul(un(a), un(a))
+                    else:
+                        r = {ast.Add: v_add, ast.Sub: v_sub, ast.Mult: v_mul, ast.Div: v_div}[type(e.op)](un(a), un(b))
                 except (KeyError, SortError) as ex:
                     raise AnalysisError("`%s`: %s" % (src(e)[:60], ex))
                 if _is_rat(r):
                     return r
                 return VecObj("Point" if isinstance(r, PointV) else "Expression", r)
+            if isinstance(e.op, ast.Pow) and _is_rat(a) and (isinstance(b, int) and not isinstance(b, bool) and 0 <= b <= 6 or _is_rat(b) and b.is_number() and b.number() in (0, 1, 2, 3, 4)):
+                k0 = b if isinstance(b, int) else int(b.number())
+                r0 = a / a if k0 == 0 else a
+                for _ in range(k0 - 1):
+                    r0 = r0 * a
+                return r0
             if (_is_rat(a) or _is_rat(b)) and (num(a) or _is_rat(a)) and (num(b) or _is_rat(b)):
                 from fractions import Fraction
                 fa = Fraction(repr(a)) if isinstance(a, float) else a
@@ -393,6 +407,15 @@ class IndexInterp:
             return self._call(e)
         if isinstance(e, ast.Lambda):
             return Closure(e)
+        if isinstance(e, ast.JoinedStr):
+            parts = []
+            for v in e.values:
+                if isinstance(v, ast.Constant):
+                    parts.append(str(v.value))
+                elif isinstance(v, ast.FormattedValue):
+                    x = self.ev(v.value)
+                    parts.append(x if isinstance(x, str) else ("None" if x is None else (str(x) if isinstance(x, (int, float)) else "<%s>" % type(x).__name__)))
+            return "".join(parts)
         raise AnalysisError("expression `%s` outside the index-program fragment" % src(e)[:60])
 
     def _matrix_op(self, e, a, b):
@@ -470,6 +493,10 @@ class IndexInterp:
             r = self.on_call(e, self)
             if r is not NotImplemented:
                 return r
+        if isinstance(e.func, ast.Name) and e.func.id in self.env and len(e.args) == 1 and not e.keywords:
+            mc = self._operator_caller(self.env[e.func.id])
+            if mc is not None:
+                return mc(self.ev(e.args[0]))
         if isinstance(e.func, ast.Name) and isinstance(self.env.get(e.func.id), Closure):
             return self.call_closure(self.env[e.func.id], self.call_args(e), {k.arg: self.ev(k.value) for k in e.keywords if k.arg}, e)
         if isinstance(e.func, ast.Name) and e.func.id in ("map", "starmap") and len(e.args) >= 2 and e.func.id not in self.env:
@@ -478,6 +505,9 @@ class IndexInterp:
             rows = [list(xs) for xs in zip(*seqs)] if e.func.id == "map" else [list(self._iterate(xs, e)) for xs in seqs[0]]
             if isinstance(f0, Closure):
                 return [self.call_closure(f0, r0, {}, e) for r0 in rows]
+            mc = self._operator_caller(f0)
+            if mc is not None:
+                return [mc(r0[0]) for r0 in rows]
             out = []
             for r0 in rows:          # any other callable: the call `f(x, ...)` is evaluated like a call written in the program
                 names = ["__map_arg%d" % k0 for k0 in range(len(r0))]
@@ -743,6 +773,45 @@ class IndexInterp:
             return kind in ts
         return ("call", self.callee_text(e.func), tuple(args), tuple(sorted(kw.items())))
 
+    def _operator_caller(self, f0):
+        """operator.methodcaller('m', ...) / attrgetter('a') / itemgetter(k) held as a value -> python callable on interpreted values, or None"""
+        if not (is_token(f0) and f0[0] == "call" and isinstance(f0[1], str)):
+            return None
+        name = f0[1].split(".")[-1]
+        a0 = f0[2]
+        if name == "methodcaller" and a0 and isinstance(a0[0], str):
+            def call(x, a0=a0):
+                self.env["__mc_obj"] = x
+                for k0, v0 in enumerate(a0[1:]):
+                    self.env["__mc_a%d" % k0] = v0
+                try:
+                    return self.ev(ast.Call(func=ast.Attribute(value=ast.Name(id="__mc_obj", ctx=ast.Load()), attr=a0[0], ctx=ast.Load()),
+                                            args=[ast.Name(id="__mc_a%d" % k0, ctx=ast.Load()) for k0 in range(len(a0) - 1)], keywords=[]))
+                finally:
+                    self.env.pop("__mc_obj", None)
+            return call
+        if name == "attrgetter" and len(a0) == 1 and isinstance(a0[0], str):
+            def get(x, a0=a0):
+                self.env["__mc_obj"] = x
+                try:
+                    node = ast.Name(id="__mc_obj", ctx=ast.Load())
+                    for part in a0[0].split("."):
+                        node = ast.Attribute(value=node, attr=part, ctx=ast.Load())
+                    return self.ev(node)
+                finally:
+                    self.env.pop("__mc_obj", None)
+            return get
+        if name == "itemgetter" and len(a0) == 1:
+            def item(x, a0=a0):
+                self.env["__mc_obj"], self.env["__mc_k"] = x, a0[0]
+                try:
+                    return self.ev(ast.Subscript(value=ast.Name(id="__mc_obj", ctx=ast.Load()), slice=ast.Name(id="__mc_k", ctx=ast.Load()), ctx=ast.Load()))
+                finally:
+                    self.env.pop("__mc_obj", None)
+                    self.env.pop("__mc_k", None)
+            return item
+        return None
+
     def call_args(self, e):
         """evaluated positional arguments of a call, `*iterable` expanded"""
         out = []
@@ -919,6 +988,9 @@ class IndexInterp:
                 if cur is None:
                     raise AnalysisError("augmented assignment to the unbound `%s`" % src(s.target))
                 rhs = self.ev(s.value)
+                if isinstance(cur, VecObj) and cur.kind == "Point" and cur.attrs.get("stored_array"):
+                    # numpy: `a += b` on an array writes into the array itself -- here the array is the value stored on a leaf
+                    raise ProgramRaise("AliasedUpdate", "`%s` updates in place the array that is the stored value of %s" % (norm_stmt(s)[:50], cur.attrs["stored_array"]))
                 if isinstance(cur, VecObj) or isinstance(rhs, VecObj):
                     tmpl, tmpr = "__aug_l", "__aug_r"
                     self.env[tmpl], self.env[tmpr] = cur, rhs
